@@ -9,6 +9,8 @@ def dispatch (line : String) : String :=
   | "SC" :: toks => Drv.ScreenD.handle toks
   | "AN" :: toks => Drv.AnsiD.handle toks
   | "FM" :: toks => Drv.FormsD.handle toks
+  | "DL" :: toks => Drv.DeadlineD.handle toks
+  | "WN" :: toks => Drv.DeadlineD.handleWait toks
   | "PT" :: toks => Drv.TransportD.handlePty toks
   | "PF" :: toks => Drv.TransportD.handleFd toks
   | _ => "bad-op"
